@@ -14,7 +14,7 @@ CHECKS = {
     "C07": ("exploration", "runtime monitoring: per-diagnostic position/message oracle (go/scanner token starts, FileSet identity, fix range, artefact patterns)",
             "Every diagnostic produced on the C01 corpus is checked against token/comment start offsets computed by go/scanner from the on-disk bytes, file identity, fix-range sanity and formatting-artefact patterns.",
             "go/scanner is the reference for token starts; checkers that never fire are listed in evidence", "5/C07"),
-    "C02": ("exploration", "runtime monitoring: repeated executions (fresh checker set per repeat, two processes, real CLI at -concurrency 1/16) with a byte-equality oracle on the ordered diagnostics",
+    "C02": ("exploration", "runtime monitoring: repeated executions (fresh checker set per repeat, two processes, real CLI at -concurrency 1/16) with a byte-equality oracle on the ordered diagnostics; overlapping user rule files and invalid configurations repeated 10-12 times per process",
             "Map-iteration and scheduling nondeterminism is provoked by repetition: 8 (quick) / 16 (thorough) in-process repeats, a second process, and the real CLI run four times per workspace; any difference in the ordered (pos, text, fix) list is a violation.",
             "P(miss) for a k-way map shuffle over n runs <= (1/k!)^(n-1); only (file,checker) pairs with >= 2 diagnostics can show an order difference (counted as distinct_nontrivial)", "5/C02"),
     "C03": ("exploration", "runtime monitoring: seeded visit histories on one long-lived Context+checker set compared per visit with fresh-instance baselines; CLI argument permutations",
@@ -23,7 +23,7 @@ CHECKS = {
     "C05": ("exploration", "runtime monitoring: structural fingerprints (AST content+identity, types.Info, Context, FileSet, registry/params) around every Check plus order-independence differential over three fresh loads",
             "Before/after fingerprints bracket each Check on real and generated packages in which every rewriting checker fires; additionally three fresh parses are analysed in sorted, reversed and seeded checker order and each checker's diagnostics must agree.",
             "reflection walk covers every exported and unexported field of go/ast nodes; types.Info entry identities are compared per file, map sizes per Check", "5/C05"),
-    "C20": ("exploration", "runtime monitoring: every diagnostic of an API-specific checker is resolved through types.Info (Uses/PkgName/Builtin) on generated namesake programs with real-API twins",
+    "C20": ("exploration", "runtime monitoring: every diagnostic of an API-specific checker is resolved through types.Info (Uses/PkgName/Builtin) on generated namesake programs with real-API twins, on the maintainers' examples transplanted onto generated full shadows of the standard packages, and on hand-written shadowing shapes",
             "Generated packages re-declare builtins and standard package names at package, import, local, parameter, field and type-parameter scope in same-shape and variadic shapes; a diagnostic whose flagged node only contains namesake callees is a violation; every table entry must be confirmed alive on the real API.",
             "subject table checker->API is part of the harness; diagnostics without a candidate spelling are inconclusive", "5/C20"),
     "C04": ("exploration", "runtime monitoring: Go race detector on the real binaries (-race -tags verif) under seeded schedule perturbation (hook H1), H1 begin/end trace as interleaving evidence, differential vs the sequential run; concurrent analyzer passes in a -race harness",
@@ -35,7 +35,7 @@ CHECKS = {
     "C17": ("exploration", "runtime observation of the repository's own generators (precompile.go, makedocs, doc sub-command) compared structurally with the shipped artefacts; exhaustive over groups, checkers and doc rows",
             "The rule compiler is re-run offline and its output compared AST-equal with rulesdata.go; every rule group's doc comments are compared with the registered checker; makedocs is executed in a scratch layout and compared with docs/overview.md; `doc` output and check-marks are compared with the registry and the selection rule.",
             "finite space, fully enumerated", "5/C17"),
-    "C08": ("exploration", "runtime differential of the four real binaries on the same workspaces under equivalent configurations; analyzer -json edits vs Warning.Suggestion from the in-process run",
+    "C08": ("exploration", "runtime differential of the four real binaries on the same workspaces under equivalent configurations; analyzer -json edits vs Warning.Suggestion from the in-process run; other target platforms in the environment; a module declaring an old language version",
             "go-critic, gocritic and go-critic-analysis are run over generated packages plus a package with in-package tests, external tests and a main under enable-all / name and tag lists (incl. name-enabled-while-tag-disabled) / every checker parameter / -go; multisets of (file,line,col,checker,message) must be equal and free of duplicates; the analyzer must offer every CLI checker and parameter flag; -json edits must equal the API's quick fixes; the twin command's sources must be byte-identical.",
             "CLI run with -checkGenerated -checkTests (the stock driver has no such filters); the CLI's default -enable list is passed to the analyzer explicitly", "5/C08"),
     "C16": ("exploration", "runtime observation of the real CLI in constructed layouts (cwd/GOPATH/GOROOT/target relations, flags) with a resolve-and-compare oracle on exit status, output lines and file filters",
@@ -47,10 +47,10 @@ CHECKS = {
     "C18": ("fault_enumeration", "runtime fault enumeration through linter.NewChecker on the registered ruleguard checker: sequences of rule files from a fault alphabet x failOn settings x enable/disable vectors; 12-line policy spec with don't-cares as oracle; CLI sample",
             "Rule files {valid x3, unreadable (directory, dangling symlink), syntax error, DSL error, empty, unloadable import} are combined in sequences of length 1-4 and globs with every failOn setting (legacy boolean, unknown values) and enable/disable vectors over names and tags; init error vs success and exactly-one-diagnostic-per-surviving-group on a probe file are compared with the executable policy.",
             "unreadable files under failOn=dsl are don't-care; the unloadable import only counts when its group passes the filter", "5/C18"),
-    "C13": ("exploration", "runtime metamorphic monitoring: the maintainers' example packages are transformed (append, pad, permute) and re-analysed; the examples' own /*! */ expectations, which move with their declaration, are the oracle; identity round as control",
+    "C13": ("exploration", "runtime metamorphic monitoring: the maintainers' example packages are transformed (append, pad, permute) and re-analysed; the examples' own /*! */ expectations, which move with their declaration, are the oracle; identity round as control; the same transformations on generated packages with a per-declaration diagnostic multiset as oracle",
             "All 107 example packages are copied into the scratch module under T1 (append unrelated declarations), T2 (blank lines/padding declarations after the import block), T4 (permute plain functions) and combinations with seeded choices; every expected warning must still be produced and no new one may appear outside padding; order-subject checkers are exempt from permutation only.",
             "the harness reproduces linttest's configuration; an example whose untouched copy fails is excluded as a harness mismatch (listed in evidence)", "5/C13"),
-    "C14": ("exploration", "runtime monitoring of threshold families: constructs of measure n x thresholds t around every boundary through the in-process override, both CLIs and the analyzer; compiled unsafe.Sizeof program as the size oracle",
+    "C14": ("exploration", "runtime monitoring of threshold families: constructs of measure n x thresholds t around every boundary through the in-process override, both CLIs and the analyzer; compiled unsafe.Sizeof program as the size oracle, also compiled for and run on 386 against all front-ends under GOARCH=386",
             "For every numeric parameter a family K_n is analysed at thresholds around n; the documented direction predicate decides each (n,t) pair (which implies unit step and monotonicity), neighbouring thresholds are compared by set inclusion, byte sizes quoted in messages are compared with a compiled unsafe.Sizeof program for padded structs, and each parameter value is passed in-process, through both CLIs and through the analyzer flag with equal results; boolean parameters run on discriminating inputs.",
             "commentedOutCode's 'length of the comment' has no unambiguous unit anchor (go/ast's Text() ends with a newline): only unit step and monotonicity are demanded there", "5/C14"),
     "C15": ("exploration", "runtime monitoring of every diagnostic produced under target versions 1.13-1.23 (embedded rules, hand-written checkers, dynamic ruleguard on the same rule source) against a first-appearance table built from GOROOT/api; differential unset vs newest, 1.N vs go1.N, front-end -go vs SetGoVersion",
